@@ -350,7 +350,7 @@ K("C09/from-move/simple", ["C09"], SN + "c09_from_move_simple_disambiguation", [
   assumes=CANDS)
 K("C09/from-move/pawns-castling", ["C09"], "moves::san::verif_kani_c::c09_from_move_pawns_castling_v2", ["san::Data::from_move"],
   "for all well-formed pawn / castling / null moves: straight pawn moves are written as destination (+promotion), diagonal ones incl. en passant as file x destination (+promotion), castlings as O-O / O-O-O")
-K("C09/into-move/simple", ["C09", "C02"], SN + "c09_into_move_simple", ["san::Data::into_move", "san::AmbigSearcher::new", "san::AmbigSearcher::push", "san::AmbigSearcher::get_move"],
+K("C09/into-move/simple", ["C09", "C02"], "moves::san::verif_kani_c::c09_into_move_simple_v2", ["san::Data::into_move", "san::AmbigSearcher::new", "san::AmbigSearcher::push", "san::AmbigSearcher::get_move"],
   "for all boards, all Simple SAN values (piece, optional file, optional rank, capture flag, destination) and every candidate list allowed by the contract: Ok(m) => m is a candidate agreeing with the hints and the only one; two or more agreeing candidates => Ambiguity naming two distinct ones; none => NotFound; capture sign on an empty destination => CaptureExpected",
   assumes=CANDS)
 K("C09/into-move/pawn-capture-short", ["C09", "C02"], SN + "c09_into_move_pawn_capture_short", ["san::Data::into_move"],
